@@ -375,6 +375,13 @@ func (s *configurationStore) Watch(ctx context.Context, ch chan<- configapi.Conf
 	s.mu.Unlock()
 
 	go func() {
+		// Whatever way this goroutine ends, keep draining the events the store may still be sending to it
+		defer func() {
+			go func() {
+				for range eventCh {
+				}
+			}()
+		}()
 		defer func() {
 			s.mu.Lock()
 			if options.configurationID != "" {
@@ -408,11 +415,17 @@ func (s *configurationStore) Watch(ctx context.Context, ch chan<- configapi.Conf
 					}
 					if err := s.populate(ctx, configuration); err != nil {
 						log.Error(err)
+						close(ch)
 						return
 					}
-					ch <- configapi.ConfigurationEvent{
+					select {
+					case ch <- configapi.ConfigurationEvent{
 						Type:          configapi.ConfigurationEvent_REPLAYED,
 						Configuration: *configuration,
+					}:
+					case <-ctx.Done():
+						close(ch)
+						return
 					}
 				}
 			} else {
@@ -439,11 +452,17 @@ func (s *configurationStore) Watch(ctx context.Context, ch chan<- configapi.Conf
 					configuration.Version = uint64(entry.Version)
 					if err := s.populate(ctx, configuration); err != nil {
 						log.Error(err)
+						close(ch)
 						return
 					}
-					ch <- configapi.ConfigurationEvent{
+					select {
+					case ch <- configapi.ConfigurationEvent{
 						Type:          configapi.ConfigurationEvent_REPLAYED,
 						Configuration: *configuration,
+					}:
+					case <-ctx.Done():
+						close(ch)
+						return
 					}
 				}
 			}
@@ -462,10 +481,6 @@ func (s *configurationStore) Watch(ctx context.Context, ch chan<- configapi.Conf
 			case <-ctx.Done():
 			}
 			close(ch)
-			go func() {
-				for range eventCh {
-				}
-			}()
 			return
 		}
 	}()
